@@ -137,21 +137,12 @@ func step3(in []kit.Tri, rep0 *kit.TopoReport, op op3, o *kit.Obs) (out []kit.Tr
 		d := &model3d.Decimator{FeatureAngle: op.F[0], PlaneDistance: op.F[1] * diag, BoundaryDistance: op.F[2] * diag,
 			MinimumAspectRatio: op.F[3], SplitAttempts: op.I[0], NoEdgePreservation: op.B[0], EliminateCorners: op.B[1]}
 		sel := selector3(op.I[1], op.I[2], op.I[3], b)
-		if op.I[0] >= 2 && !op.B[2] && kit.Excluded("decimate-splitattempts-exponential") {
-			// known finding: the search over splits is exponential in the valence when no triangulation
-			// of the hole is acceptable; valence <= 12 keeps it below a millisecond
-			val := map[kit.V3]int{}
-			for _, t := range in {
-				for _, v := range t {
-					val[v]++
-				}
-			}
-			for _, n := range val {
-				if n > 12 {
-					kit.CountExcluded("decimate-splitattempts-exponential")
-					return nil, "excluded:decimate-splitattempts-exponential", nil
-				}
-			}
+		if op.I[0] >= 2 && !op.B[2] && kit.Excluded("decimate-splitattempts-exponential") && rep0.V > 14 {
+			// known finding: the search over splits is exponential in the size of the hole when no triangulation
+			// of it is acceptable.  Holes grow while neighbours are removed, so the valences of the input say
+			// little; a hole has fewer vertices than the mesh, and up to 13 the search stays below a millisecond.
+			kit.CountExcluded("decimate-splitattempts-exponential")
+			return nil, "excluded:decimate-splitattempts-exponential", nil
 		}
 		var res *model3d.Mesh
 		if op.B[2] {
@@ -250,6 +241,7 @@ func step3(in []kit.Tri, rep0 *kit.TopoReport, op op3, o *kit.Obs) (out []kit.Tr
 		thr := op.F[0] * lens[len(lens)/2]
 		calls := 0
 		guard, vetoed := kit.Excluded("eliminate-edges-link-condition"), false
+		var foldErr error
 		f := func(tmp *model3d.Mesh, s model3d.Segment) bool {
 			// known finding: the library collapses edges whose end points have a common neighbour besides the
 			// two apexes (link condition); while it is open, such collapses are vetoed through the callback
@@ -260,18 +252,27 @@ func step3(in []kit.Tri, rep0 *kit.TopoReport, op op3, o *kit.Obs) (out []kit.Tr
 				}
 				return false
 			}
+			yes := false
 			switch op.I[0] {
 			case 0:
-				return s[0].Dist(s[1]) < thr
+				yes = s[0].Dist(s[1]) < thr
 			case 1:
-				return unit(hpair(m3.V3(s[0]), m3.V3(s[1]), op.I[2]))*100 < float64(op.I[1])
+				yes = unit(hpair(m3.V3(s[0]), m3.V3(s[1]), op.I[2]))*100 < float64(op.I[1])
 			default:
 				calls++
-				return calls <= op.I[1]
+				yes = calls <= op.I[1]
 			}
+			if yes && foldErr == nil {
+				foldErr = foldOver(tmp, s)
+			}
+			return yes
 		}
 		what = "EliminateEdges"
 		out = canonTris(m3.Tris(mesh.EliminateEdges(f)))
+		if foldErr != nil {
+			err = fmt.Errorf("%s: %w", what, foldErr)
+			return
+		}
 		if len(out) == len(in) {
 			o.Label("edges:none-removed")
 		} else {
@@ -284,14 +285,22 @@ func step3(in []kit.Tri, rep0 *kit.TopoReport, op op3, o *kit.Obs) (out []kit.Tr
 
 	case "flip":
 		what = "FlipDelaunay"
-		out = canonTris(m3.Tris(mesh.FlipDelaunay()))
-		if kit.Excluded("flip-delaunay-existing-edge") && flippedOntoExistingEdge(out) {
-			// known finding: an edge is flipped although its two apexes are already joined by an edge.
-			// Which edges are flipped depends on Go's map order, so the class (runs that performed such a
-			// flip) can only be recognised by its footprint: an edge with more than two faces or a face
-			// with a repeated vertex.
+		if kit.Excluded("flip-delaunay-existing-edge") && flipRisk(in) {
+			// known finding: an edge is flipped although its two apexes are already joined by an edge; the
+			// damaged mesh can then keep the flip loop busy for ever (a face with a repeated vertex has NaN
+			// angles).  The configuration arises after earlier flips too (seen on a 270-face mesh without any
+			// such edge and without vertices of valence <= 4), in an order that depends on Go's map iteration,
+			// so while the finding is open only inputs that need no flip at all are handed to the library.
 			kit.CountExcluded("flip-delaunay-existing-edge")
 			return nil, "excluded:flip-delaunay-existing-edge", nil
+		}
+		out = canonTris(m3.Tris(mesh.FlipDelaunay()))
+		if kit.Excluded("flip-delaunay-existing-edge") && flippedOntoExistingEdge(out) {
+			// ... and the configuration can also arise after several flips.  Which edges are flipped depends on
+			// Go's map order, so those runs can only be recognised by their footprint: an edge with more than
+			// two faces or a face with a repeated vertex.
+			kit.CountExcluded("flip-delaunay-existing-edge")
+			return nil, "excluded:flip-delaunay-existing-edge(footprint)", nil
 		}
 		if _, err = checkTopo3(out, rep0, what); err != nil {
 			return
@@ -438,6 +447,67 @@ func linkOK(tmp *model3d.Mesh, s model3d.Segment) bool {
 		}
 	}
 	return common == 2
+}
+
+// foldOver: the segment offered to the callback is collapsed onto its midpoint as soon as the callback
+// returns true.  The library only offers segments that passed its fold-over guard (the normals of
+// (p1,p2,s0) and (p1,p2,s1) do not oppose each other for any triangle that survives the collapse);
+// the normal of (p1,p2,x) is linear in x, so under that guard n(mid)·n(old) = (|n(old)|^2 + n(s0)·n(s1))/2
+// >= |n(old)|^2/2: no surviving triangle may turn against its previous orientation.  Reported when the
+// cosine between old and new normal is below -1e-6 for a triangle whose old and new areas are not negligible.
+func foldOver(tmp *model3d.Mesh, s model3d.Segment) error {
+	s0, s1 := m3.V3(s[0]), m3.V3(s[1])
+	mid := s0.Add(s1).Scale(0.5)
+	scale := s0.Dist(s1)
+	for _, p := range s {
+		for _, t := range tmp.Find(p) {
+			for k := 0; k < 3; k++ {
+				scale = math.Max(scale, t[k].Dist(t[(k+1)%3]))
+			}
+		}
+	}
+	for i, p := range s {
+		for _, t := range tmp.Find(p) {
+			if t[0] == s[1-i] || t[1] == s[1-i] || t[2] == s[1-i] {
+				continue
+			}
+			old := kit.Tri{m3.V3(t[0]), m3.V3(t[1]), m3.V3(t[2])}
+			nw := old
+			for k := range nw {
+				if t[k] == p {
+					nw[k] = mid
+				}
+			}
+			n0 := old[1].Sub(old[0]).Cross(old[2].Sub(old[0]))
+			n1 := nw[1].Sub(nw[0]).Cross(nw[2].Sub(nw[0]))
+			l0, l1 := n0.Norm(), n1.Norm()
+			if l0 < 1e-9*scale*scale || l1 < 1e-9*scale*scale {
+				continue
+			}
+			if c := n0.Dot(n1) / (l0 * l1); c < -1e-6 {
+				return fmt.Errorf("collapsing %v-%v onto its midpoint turns triangle %v over (cosine between old and new normal %.6g): the fold-over guard let it pass", s0, s1, old, c)
+			}
+		}
+	}
+	return nil
+}
+
+// flipRisk: some edge has opposite angles summing to more than pi - 1e-6 (the library flips at pi + 1e-8),
+// i.e. FlipDelaunay would flip at least one edge, or the sum cannot be evaluated.
+func flipRisk(ts []kit.Tri) bool {
+	im, _ := index(ts)
+	es, opp := im.edges()
+	for _, e := range es {
+		s := 0.0
+		for _, k := range opp[e] {
+			u, w := im.V[e[0]].Sub(im.V[k]), im.V[e[1]].Sub(im.V[k])
+			s += math.Atan2(u.Cross(w).Norm(), u.Dot(w))
+		}
+		if !(s < math.Pi-1e-6) {
+			return true
+		}
+	}
+	return false
 }
 
 // flippedOntoExistingEdge: some undirected edge has more than two faces, or a face repeats a vertex.
